@@ -54,6 +54,9 @@ func newTCPDriver(config *TCPv4, sink packets.Sink, source packets.Source) *tcpD
 	if !config.ParisTracerouteMode {
 		basePacketID = packets.AllocPacketID(config.MaxTTL)
 		seqNum = rand.Uint32()
+		if seq, ok := verifSeqOverride(false, 0); ok {
+			seqNum = seq
+		}
 	}
 
 	return &tcpDriver{
@@ -118,6 +121,9 @@ func (t *tcpDriver) GetDriverInfo() common.TracerouteDriverInfo {
 
 func (t *tcpDriver) getNextPacketIDAndSeqNum(ttl uint8) (uint16, uint32) {
 	if t.config.ParisTracerouteMode {
+		if seq, ok := verifSeqOverride(true, ttl); ok {
+			return 41821, seq
+		}
 		return 41821, rand.Uint32()
 	}
 	return t.basePacketID + uint16(ttl), t.seqNum
